@@ -303,3 +303,61 @@ def explore_agg_base(run, binp, n):
     run.oblige("corr:L1 Model.ParseAgg.machineBA = ada::parse<ada::url_aggregator>(input, &base) (buffer, offsets; failures)",
                not bad, "; ".join(f"input {unhx(l.split()[1])!r} base {unhx(l.split()[2])!r}: implementation [{r[:300]}], model [{m[:300]}]"
                                   for l, r, m in bad[:3]))
+
+
+def explore_valid(run, binp, n):
+    """parse_url_impl<url_aggregator, false>(input, base) - what ada::can_parse runs far from the limit - against Model.ParseValid:
+    verdict, and (for a valid run without a base) the type and has_opaque_path it leaves for a later run."""
+    rng = run.rng
+    cases = set()
+    for _ in range(n):
+        if rng.random() < 0.5:
+            cases.add((gen_input(rng), None))
+        else:
+            cases.add(gen_base_pair(rng))
+    cases = sorted(cases, key=lambda c: (c[0], c[1] or b""))
+    rng.shuffle(cases)
+    lines = [f"vparse {hx(i)}" + (f" {hx(b)}" if b else "") for i, b in cases if i and (b is None or b)]
+    real, crash = lib.run_lines(binp, lines, timeout=900)
+    if crash:
+        idx = min(crash.get("answered", 0), len(lines) - 1)
+        run.violation("crash:" + lines[idx], "the validation-only parser crashed/aborted", lines=[lines[idx]], detail=crash)
+        return
+    keep = [(l, r.split()) for l, r in zip(lines, real) if r != "badbase"]
+    q = [f"parse.valid {l.split()[1]} {p[0]} {p[1]}" for l, p in keep]
+    model, dcrash = lib.run_lines(lib.driver_path(), q, timeout=900)
+    if dcrash:
+        run.oblige("corr:L1 validation-only parser (driver)", False, str(dcrash)[:300])
+        return
+    idna_via = wpt.idna_via_harness(binp)
+    hints = {}
+    for _ in range(4):
+        need = sorted({unhx(a.split()[1]) for a in model if a.startswith("need-idna ")} - set(hints))
+        if not need:
+            break
+        for d, o in zip(need, idna_via(need)):
+            hints[d] = o
+        idx = [i for i, a in enumerate(model) if a.startswith("need-idna ")]
+        sub, dcrash = lib.run_lines(lib.driver_path(), [q[i] + " " + " ".join(f"{hx(d)}={'!' if hints[d] is None else hx(hints[d])}"
+                                                                                 for d in [unhx(model[i].split()[1])] if d in hints)
+                                                         for i in idx], timeout=900)
+        if dcrash:
+            run.oblige("corr:L1 validation-only parser (driver)", False, str(dcrash)[:300])
+            return
+        for i, a in zip(idx, sub):
+            model[i] = a
+    bad, stat = [], {"bad_base": len(lines) - len(keep), "valid": 0, "invalid": 0, "with_base": 0}
+    for (l, p), m in zip(keep, model):
+        run.count()
+        run.nontriv(l)
+        stat["valid" if p[2] == "1" else "invalid"] += 1
+        stat["with_base"] += p[0] != "-"
+        mm = m.split()
+        # the verdict always; type and opaque flag where a later run would read them (valid, parsed without a base)
+        ok = len(mm) == 3 and mm[0] == p[2] and (p[2] == "0" or p[0] != "-" or (mm[1] == p[3] and mm[2] == p[4]))
+        if not ok:
+            bad.append((l, " ".join(p[2:]), m))
+    run.extra["validation_only_L1_calls"] = len(keep)
+    run.extra["validation_only_L1_outcomes"] = stat
+    run.oblige("corr:L1 Model.ParseValid = parse_url_impl<url_aggregator, false>(input, base) (verdict; type and has_opaque_path of valid base runs)",
+               not bad, "; ".join(f"{l}: implementation [{r}], model [{m}]" for l, r, m in bad[:3]))
